@@ -27,6 +27,8 @@ func main() {
 		os.Exit(cmdCheck(os.Args[2:]))
 	case "vc":
 		os.Exit(cmdVC(os.Args[2:]))
+	case "replay":
+		os.Exit(cmdReplay(os.Args[2:]))
 	default:
 		fmt.Fprintln(os.Stderr, "unknown command")
 		os.Exit(2)
